@@ -848,6 +848,11 @@ def run(prop, seed, budget, ctx):
             failures += ef; distinct |= ed; dn += en
             for k_, v_ in eh.items(): hist[k_] += v_
             for f in ef: hist["P:" + f["why"][0]] += 1
+            import corners7
+            ef, en, ed, eh = corners7.run_part("C13", seed, budget)
+            failures += ef; distinct |= ed; dn += en
+            for k_, v_ in eh.items(): hist[k_] += v_
+            for f in ef: hist["P:" + f["why"][0]] += 1
             import objmodel
             ef, en, ed, eh = objmodel.run_part("C13", seed, budget)
             failures += ef; distinct |= ed; dn += en
